@@ -256,6 +256,8 @@ ASCII_WORDS = [b"a", b"b", b"c", b"dir", b"src", b"main.go", b"README.md", b"Mak
                b"k8s", b"v1.2", b"node_modules", b"tmp"]
 BULLETY = [b"-", b"*", b"+", b"#", b"- x", b"* y", b"+ z", b"# h", b"a-b", b"a*b", b"a+b", b"a#b", b"--", b"-*+",
            b"a - b", b"x -", b" - lead", b"##x", b"C#", b"f#", b"x ##", b"a #"]
+# names with characters that are special to fmt / paths on other platforms / trailing blanks
+ODD = [b"a\\b", b"100%", b"cpu%d.txt", b"a%20b", b"%s", b"%!", b"sp ", b"tb\t", b"c:\\x"]
 UNICODE = ["日本語".encode(), "é".encode(), "é".encode(), "a b".encode(), "　x".encode(),
            "x　".encode(), "🌳".encode(), "ß".encode(), " ".encode() + b"z", "ｆ".encode()]
 BLANKY = [b" a", b"a ", b"  a  ", b"\ta", b"a\tb", b" ", b"  ", b"\t", b"a\rb"]
@@ -273,10 +275,10 @@ CASEY = [b"Makefile", b"makefile", b"MAKEFILE", b"README", b"Readme", b"readme",
 
 POOLS = {
     "ascii": ASCII_WORDS,
-    "mixed": ASCII_WORDS * 3 + BULLETY + UNICODE + BLANKY + CASEY,
+    "mixed": ASCII_WORDS * 3 + BULLETY + UNICODE + BLANKY + CASEY + ODD,
     "casey": CASEY,
-    "hostile_fmt": ASCII_WORDS + HOSTILE_FMT * 2 + UNICODE,
-    "fs": ASCII_WORDS * 4 + [b"f.go", b"g.go", b"Makefile", b"x.md", b"o", b"lib.o"],
+    "hostile_fmt": ASCII_WORDS + HOSTILE_FMT * 2 + UNICODE + ODD,
+    "fs": ASCII_WORDS * 4 + [b"f.go", b"g.go", b"Makefile", b"x.md", b"o", b"lib.o"] + ODD,
     "fs_hostile": ASCII_WORDS * 3 + HOSTILE_FS,
     # sibling names that are prefixes of each other, continued by bytes sorting below and above '/'
     "fs_prefix": [b"cmd", b"cmd-old", b"cmd.md", b"cmd_x", b"cmd0", b"cmd x", b"cmd+", b"a", b"a-b", b"a.b", b"a b", b"ab", b"a_b", b"a!",
@@ -365,6 +367,22 @@ def wide_forests(kmax=14):
             if k % 3 == 0:
                 inner = [(3, b"c%d" % i) for i in range(1, k + 1)]
                 out.append([(1, b"r"), (2, b"p")] + inner + [(3, b"c%d" % j), (4, b"g"), (2, b"q"), (1, b"s")])
+    return out
+
+
+def very_wide_forests(ks=(15, 16, 17, 18, 31, 32, 33, 63, 64, 65, 66, 127, 128, 129, 257)):
+    """nodes around the sizes at which implementations switch lookup structures (16, 32, 64, 128, 256 children):
+    k distinct children, then repeats of the first, the last, the one before the last and a middle one, each with a
+    grandchild, and one more new child"""
+    out = []
+    for k in ks:
+        kids = [(2, b"c%d" % i) for i in range(1, k + 1)]
+        reps = []
+        for j in sorted({1, k, max(1, k - 1), (k + 1) // 2}):
+            reps += [(2, b"c%d" % j), (3, b"g%d" % j)]
+        out.append([(1, b"r")] + kids + reps + [(2, b"new"), (1, b"s")])
+        inner = [(3, b"c%d" % i) for i in range(1, k + 1)]
+        out.append([(1, b"r"), (2, b"p")] + inner + [(3, b"c%d" % k), (4, b"g"), (3, b"c1"), (4, b"h"), (2, b"q")])
     return out
 
 
@@ -464,7 +482,9 @@ BF_CHOICES = [BF_DEFAULT, (b"+--", b"    ", b"|--", b"|   "), (b"", b"", b"", b"
               (b"`-", b" ", b"|-", b"|"),
               # connectors of DIFFERENT byte lengths for last / intermediate nodes
               (b"`---", b"   ", b"|-", b"|  "), (b"\\", b"", b"+---", b"|"), (b"", b"  ", b"*", b"."),
-              ("└".encode(), b" ", b"+-", "│ ".encode())]
+              ("└".encode(), b" ", b"+-", "│ ".encode()),
+              # characters that are special to fmt
+              (b"%-", b"% ", b"|%s", b"%d "), (b"`%%", b"  ", b"%v", b"%")]
 
 
 def bf_args(bf):
